@@ -182,6 +182,11 @@ pub fn generate(seed: u64, thorough: bool) -> Gen {
             docs.push(deep_chain(kind, n));
         }
     }
+    add(page_numbers(), 10, joint, &mut rng, &mut docs);
+    for n in [1, 18, 19, 20, 21, 22, 200, 20_000] {
+        docs.push(parser_depth(n, false));
+        docs.push(parser_depth(n, true));
+    }
     add(images(), 10, joint, &mut rng, &mut docs);
     add(predictor(), 10, joint / 2, &mut rng, &mut docs);
     add(runlength(), 10, 0, &mut rng, &mut docs);
